@@ -306,7 +306,7 @@ fn rate_job(op: Op1, form: Form, len: usize, devs: u32) -> Job {
 pub fn plan(tier: Tier) -> Plan {
   let (len0, len, devs) = match tier {
     Tier::Quick => (12, 10, 2),
-    Tier::Thorough => (15, 12, 3),
+    Tier::Thorough => (19, 15, 4),
   };
   let mut ops = vec![];
   for w in [1u64, 2] {
